@@ -1,5 +1,143 @@
+import Agd.Model.Device
 import Agd.Driver.Util
-/-! Line-protocol driver for the C03 model (stub: not built yet). -/
+/-!
+Line-protocol driver for the C03 model.
+
+Strings travel as `x<hex of the bytes>` (so `x` is the empty string).  Ops:
+
+* `srv <proto> <linked>`                    new server, no binds, no device domains; DB untouched
+* `bind a <ip> <port>` / `bind p <ip> <single> <port>`
+* `dom <xs>`
+* `dbreset`
+* `prof <xpid> <deleted> <xdev>*`
+* `dev <xid> <enabled> <dohonly> (allow | deny | pw <xs>)`
+* `byid <xid> <res>` · `byhuman <xpid> <xlowerhuman> <res>` · `create <xpid> <xhuman> <dt> <res>` ·
+  `bylinked <ip> <res>` · `byded <ip> <res>`  with `<res>` = `ok <xpid> <xdid>` | `dnf…` | `pnf…` | `err`
+* `req <userinfo> <xpath> <xsni> <edns> <lip> <lport> <rip>` with `<userinfo>` = `-` | `u:<xs>` |
+  `p:<xs>:<xs>` and `<edns>` = `-` (no OPT) | `e` (no options) | `<code>:<xs>,…`
+
+`req` answers `<result> <cont> <downstream>`.
+-/
 namespace Agd.Driver.C03
-def main : IO Unit := Agd.Driver.loop (fun (s : Unit) _ => (s, "bad-op")) ()
+open Agd.Device Agd.Driver
+
+def hexVal (c : Char) : Nat :=
+  if '0' ≤ c && c ≤ '9' then c.toNat - 48
+  else if 'a' ≤ c && c ≤ 'f' then c.toNat - 87
+  else if 'A' ≤ c && c ≤ 'F' then c.toNat - 55 else 0
+
+def unhexL : List Char → Str
+  | a :: b :: r => Char.ofNat (hexVal a * 16 + hexVal b) :: unhexL r
+  | _ => []
+
+/-- Decode `x<hex>`. -/
+def unx (s : String) : Str := unhexL (s.toList.drop 1)
+
+def hexDigit (n : Nat) : Char := if n < 10 then Char.ofNat (48 + n) else Char.ofNat (87 + n)
+
+def tox (s : Str) : String :=
+  String.ofList ('x' :: s.flatMap (fun c => [hexDigit (c.toNat / 16 % 16), hexDigit (c.toNat % 16)]))
+
+inductive RawRes | ok (pid did : Str) | dnf | pnf | err
+
+structure S where
+  srv : Srv := { proto := .dns, linkedIP := false, binds := [], domains := [] }
+  profs : List Profile := []
+  devs : List Device := []
+  byid : List (Str × RawRes) := []
+  byhuman : List (Str × Str × RawRes) := []
+  create : List (Str × Str × Nat × RawRes) := []
+  bylinked : List (IP × RawRes) := []
+  byded : List (IP × RawRes) := []
+
+def parseProto : String → Proto
+  | "dns" => .dns | "dnscrypt" => .dnscrypt | "doh" => .doh | "doq" => .doq | "dot" => .dot
+  | _ => .invalid
+
+def parseRes : List String → RawRes
+  | ["ok", p, d] => .ok (unx p) (unx d)
+  | [t] => if t.startsWith "dnf" then .dnf else if t.startsWith "pnf" then .pnf else .err
+  | _ => .err
+
+def S.resolve (s : S) : Option RawRes → DBRes
+  | none => .devNotFound
+  | some .dnf => .devNotFound
+  | some .pnf => .profNotFound
+  | some .err => .error
+  | some (.ok pid did) =>
+    match s.profs.find? (fun p => p.id = pid), s.devs.find? (fun d => d.id = did) with
+    | some p, some d => .found p d
+    | _, _ => .error
+
+def S.db (s : S) : DB where
+  byDeviceID i := s.resolve ((s.byid.find? (fun e => e.1 = i)).map (·.2))
+  byHumanID p h := s.resolve ((s.byhuman.find? (fun e => e.1 = p && e.2.1 = h)).map (·.2.2))
+  createAuto p h dt :=
+    s.resolve ((s.create.find? (fun e => e.1 = p && e.2.1 = h && e.2.2.1 = dt)).map (·.2.2.2))
+  byLinkedIP a := s.resolve ((s.bylinked.find? (fun e => e.1 = a)).map (·.2))
+  byDedicatedIP a := s.resolve ((s.byded.find? (fun e => e.1 = a)).map (·.2))
+
+def parseUserinfo (t : String) : Option (Str × Option Str) :=
+  match t.splitOn ":" with
+  | ["u", u] => some (unx u, none)
+  | ["p", u, p] => some (unx u, some (unx p))
+  | _ => none
+
+def parseEdns (t : String) : Option (List EOpt) :=
+  if t == "-" then none
+  else if t == "e" then some []
+  else some ((t.splitOn ",").filterMap fun o =>
+    match o.splitOn ":" with
+    | [c, d] => some { code := nat! c, data := unx d }
+    | _ => none)
+
+def showAuthErr : AuthErr → String
+  | .notDoH => "notdoh" | .noUserinfo => "nouserinfo" | .noPassword => "nopassword" | .failed => "failed"
+
+def showErrCls : ErrCls → String
+  | .basicAuth => "basic" | .urlPath => "path" | .sni => "sni" | .edns => "edns" | .db => "db"
+
+def showResult (r : Result) : String :=
+  let head := match r with
+    | .none => "none"
+    | .ok p d => s!"ok {tox p.id} {tox d.id}"
+    | .authFail e => s!"authfail {showAuthErr e}"
+    | .error c => s!"error {showErrCls c}"
+    | .unknownDedicated => "unkded"
+  let down := match deviceDataOf r with
+    | some (p, d) => s!"{tox p.id}/{tox d.id}"
+    | none => "anon"
+  s!"{head} cont={showB (continues r)} down={down}"
+
+def step (s : S) : List String → S × String
+  | ["srv", proto, linked] =>
+    ({ s with srv := { proto := parseProto proto, linkedIP := bool! linked, binds := [], domains := [] } }, "ok")
+  | ["bind", "a", ip, port] =>
+    ({ s with srv := { s.srv with binds := s.srv.binds ++ [.addr ip (nat! port)] } }, "ok")
+  | ["bind", "p", ip, single, port] =>
+    ({ s with srv := { s.srv with binds := s.srv.binds ++ [.pref ip (bool! single) (nat! port)] } }, "ok")
+  | ["dom", d] => ({ s with srv := { s.srv with domains := s.srv.domains ++ [unx d] } }, "ok")
+  | ["dbreset"] => ({ srv := s.srv }, "ok")
+  | "prof" :: pid :: deleted :: devs =>
+    ({ s with profs := { id := unx pid, deleted := bool! deleted, devices := devs.map unx } :: s.profs }, "ok")
+  | "dev" :: id :: enabled :: dohonly :: rest =>
+    let check : Str → Bool := match rest with
+      | ["allow"] => fun _ => true
+      | ["pw", p] => fun x => x = unx p
+      | _ => fun _ => false
+    ({ s with devs := { id := unx id, auth := { enabled := bool! enabled, dohOnly := bool! dohonly, check } } :: s.devs }, "ok")
+  | "byid" :: id :: res => ({ s with byid := (unx id, parseRes res) :: s.byid }, "ok")
+  | "byhuman" :: pid :: h :: res => ({ s with byhuman := (unx pid, unx h, parseRes res) :: s.byhuman }, "ok")
+  | "create" :: pid :: h :: dt :: res =>
+    ({ s with create := (unx pid, unx h, nat! dt, parseRes res) :: s.create }, "ok")
+  | "bylinked" :: ip :: res => ({ s with bylinked := (ip, parseRes res) :: s.bylinked }, "ok")
+  | "byded" :: ip :: res => ({ s with byded := (ip, parseRes res) :: s.byded }, "ok")
+  | ["req", ui, path, sni, edns, lip, lport, rip] =>
+    let rq : Req := { userinfo := parseUserinfo ui, path := unx path, sni := unx sni, edns := parseEdns edns,
+                      lip := lip, lport := nat! lport, rip := rip }
+    (s, showResult (find s.srv s.db rq))
+  | _ => (s, "bad-op")
+
+def main : IO Unit := loop step {}
+
 end Agd.Driver.C03
